@@ -99,7 +99,9 @@ package planar
 // the squared distance to a segment is a deterministic function of its three points (loop-free, no
 // state): callers may name it in their contracts
 //@ func DistanceFromSegmentSquared(a, b, point)
+//@   floats abstract
 //@   function
+//@   ensures same(result, segDist2(a, b, point))
 
 // ---------------------------------------------------------------- C10: the centroid of a line is the length-weighted mean of its segment midpoints
 // computed relative to the first vertex: sum of midpoint_k * d_k over the segments divided by the sum
@@ -117,3 +119,16 @@ package planar
 //@   ensures len(ls) >= 1 && cdd(ls, len(ls) - 1) == 0.0 ==> same(c, ls[0]) && same(d, 0.0)
 //@   ensures len(ls) >= 1 && !(cdd(ls, len(ls) - 1) == 0.0) ==> same(d, cdd(ls, len(ls) - 1)) && same(c[0], cdx(ls, len(ls) - 1) / cdd(ls, len(ls) - 1) + ls[0][0]) && same(c[1], cdy(ls, len(ls) - 1) / cdd(ls, len(ls) - 1) + ls[0][1])
 //@   loop 1: invariant 0 <= i && i <= len(ls) - 1 && same(offset, ls[0]) && same(point[0], cdx(ls, i)) && same(point[1], cdy(ls, i)) && same(dist, cdd(ls, i))
+
+// ---------------------------------------------------------------- C10: point-segment distance
+// the squared distance from a point to a segment: project onto the line through a and b, clamp the
+// parameter to the segment (beyond b -> b, before a or degenerate -> a), distance to that point.
+// Both implementations in the package compute exactly this (same operations in the same order).
+//@ spec segT(a orb.Point, b orb.Point, p orb.Point) float64 = ((p[0] - a[0]) * (b[0] - a[0]) + (p[1] - a[1]) * (b[1] - a[1])) / ((b[0] - a[0]) * (b[0] - a[0]) + (b[1] - a[1]) * (b[1] - a[1]))
+//@ spec segPX(a orb.Point, b orb.Point, p orb.Point) float64 = ite(!(b[0] - a[0] == 0.0) || !(b[1] - a[1] == 0.0), ite(segT(a, b, p) > 1.0, b[0], ite(segT(a, b, p) > 0.0, a[0] + (b[0] - a[0]) * segT(a, b, p), a[0])), a[0])
+//@ spec segPY(a orb.Point, b orb.Point, p orb.Point) float64 = ite(!(b[0] - a[0] == 0.0) || !(b[1] - a[1] == 0.0), ite(segT(a, b, p) > 1.0, b[1], ite(segT(a, b, p) > 0.0, a[1] + (b[1] - a[1]) * segT(a, b, p), a[1])), a[1])
+//@ spec segDist2(a orb.Point, b orb.Point, p orb.Point) float64 = (p[0] - segPX(a, b, p)) * (p[0] - segPX(a, b, p)) + (p[1] - segPY(a, b, p)) * (p[1] - segPY(a, b, p))
+//@ func segmentDistanceFromSquared(p1, p2, point)
+//@   floats abstract
+//@   function
+//@   ensures same(result, segDist2(p1, p2, point))
